@@ -66,6 +66,12 @@ def gen_case(rng):
             a = sorted(set(a) | {base + j * step for j in range(rng.randint(2, 4))})
         if len(a) < 2:
             return None
+        # a solved sweep need not be in increasing order: descending scans and arbitrary orders are sweeps too
+        r_ord = rng.random()
+        if r_ord < 0.2:
+            a = a[::-1]
+        elif r_ord < 0.4:
+            rng.shuffle(a)
         params = {"wl": np.array(a)}
     ns = len(params["wl"])
     r = np.random.default_rng(rng.randrange(2 ** 32))
@@ -154,9 +160,10 @@ def run_case(ctx, case, workdir):
                         return False
     if not case["two"]:
         xs = params["wl"]
-        for k in range(ns - 1):
-            mid = float((xs[k] + xs[k + 1]) / 2)
-            t = (mid - xs[k]) / (xs[k + 1] - xs[k])
+        order = sorted(range(ns), key=lambda j: xs[j])          # neighbours in *value*, whatever the order of the sweep
+        for k0, k1 in zip(order[:-1], order[1:]):
+            mid = float((xs[k0] + xs[k1]) / 2)
+            t = (mid - xs[k0]) / (xs[k1] - xs[k0])
             try:
                 Sb = np.asarray(back.solve(wl=mid).S)[0]
             except Exception as e:  # noqa
@@ -166,9 +173,9 @@ def run_case(ctx, case, workdir):
                 for q, qa in zip(pins, idx):
                     if p in exp and q in exp:
                         z = Sb[back.pin_dic[exp[p]], back.pin_dic[exp[q]]]
-                        lin = (1 - t) * S[k, pa, qa] + t * S[k + 1, pa, qa]
+                        lin = (1 - t) * S[k0, pa, qa] + t * S[k1, pa, qa]
                         if abs(z - lin) > 1e-9 * max(1.0, abs(lin)):
-                            ctx.violation("C14:not-linear", f"between points {k},{k+1} the imported model is not the linear interpolation", case)
+                            ctx.violation("C14:not-linear", f"between points {k0},{k1} the imported model is not the linear interpolation", case)
                             return False
     return True
 
